@@ -12,11 +12,16 @@ static int c13CbLen = 0;
 static int c13WaitCalls = 0;
 static int c13Sel = 0;
 
+// calls queued by `cb <op>` lines: executed INSIDE the next onRead / onWrite callback
+static char c13Inner[8][700];
+static int c13NInner = 0;
+static void c13RunInner();
+
 struct C13Cb : public Server::Client::ICallback
 {
   void log(char c) { if(c13CbLen < 250) c13CbLog[c13CbLen++] = c; }
-  virtual void onRead() { log('R'); }
-  virtual void onWrite() { log('W'); }
+  virtual void onRead() { log('R'); c13RunInner(); }
+  virtual void onWrite() { log('W'); c13RunInner(); }
   virtual void onClosed()
   {
     log('C');
@@ -25,6 +30,47 @@ struct C13Cb : public Server::Client::ICallback
   }
 };
 static C13Cb c13Cb;
+
+static void c13LogStr(const char* t) { for(; *t; ++t) c13Cb.log(*t); }
+
+static void c13RunInner()
+{
+  int n = c13NInner;
+  c13NInner = 0;
+  for(int i = 0; i < n; ++i)
+  {
+    char buf[700];
+    strcpy(buf, c13Inner[i]);
+    char* tok[3] = {0, 0, 0};
+    int nt = 0;
+    for(char* p = strtok(buf, " "); p && nt < 3; p = strtok(0, " ")) tok[nt++] = p;
+    char r[64];
+    if(!strcmp(tok[0], "write"))
+    {
+      IpOutcome o;
+      ipParseOutcome(tok[2], o);
+      size_t len;
+      unsigned char* d = hxBytes(tok[1], len);
+      ipSendScripted = true; ipSendQueue[0] = o; ipSendQueueLen = 1; ipSendQueuePos = 0;
+      usize postponed = 77777;
+      bool ok = c13Cl->write(d, len, &postponed);
+      free(d);
+      snprintf(r, sizeof(r), "(w%d.%zu)", (int)ok, (size_t)postponed);
+    }
+    else if(!strcmp(tok[0], "read"))
+    {
+      size_t max = (size_t)strtoul(tok[1], 0, 10);
+      byte* b = (byte*)malloc(max);
+      usize size = 99999;
+      bool ok = c13Cl->read(b, max, size);
+      free(b);
+      snprintf(r, sizeof(r), "(rd%d.%zu)", (int)ok, (size_t)size);
+    }
+    else if(!strcmp(tok[0], "suspend")) { c13Cl->suspend(); snprintf(r, sizeof(r), "(s)"); }
+    else { c13Cl->resume(); snprintf(r, sizeof(r), "(u)"); }
+    c13LogStr(r);
+  }
+}
 
 static int c13Wait(int fd, struct epoll_event* ev, int max, int)
 {
@@ -74,6 +120,7 @@ static void c13Teardown()
   c13Fd = -1;
   c13Dead = false;
   c13CbLen = 0;
+  c13NInner = 0;
 }
 
 static bool c13Setup()
@@ -109,11 +156,26 @@ static bool c13Op(HxLine& l)
 {
   const char* op = l.tok[0];
   bool known = !strcmp(op, "write") || !strcmp(op, "ready") || !strcmp(op, "read") || !strcmp(op, "peersend") ||
-               !strcmp(op, "peerread") || !strcmp(op, "suspend") || !strcmp(op, "resume");
+               !strcmp(op, "peerread") || !strcmp(op, "suspend") || !strcmp(op, "resume") || !strcmp(op, "cb");
   if(!known) return false;
   if(!c13Srv && !c13Setup()) { printf("ENV-FAIL pair"); hxEndLine(); return true; }
   ipVirtualClock = true;
   char res[1 << 12];
+  if(!strcmp(op, "cb"))
+  { // cb write <hex> <outcome> | cb read <max> | cb suspend | cb resume: queued for the next onRead / onWrite
+    IpOutcome o;
+    bool ok = false;
+    if(l.ntok == 4 && !strcmp(l.tok[1], "write")) ok = ipParseOutcome(l.tok[3], o) && (!strcmp(l.tok[2], "-") || strlen(l.tok[2]) % 2 == 0) && strlen(l.tok[2]) < 600;
+    else if(l.ntok == 3 && !strcmp(l.tok[1], "read")) { size_t m = hxNum(l, 2); ok = m > 0 && m <= 4000; }
+    else if(l.ntok == 2 && (!strcmp(l.tok[1], "suspend") || !strcmp(l.tok[1], "resume"))) ok = true;
+    if(!ok || c13NInner >= 8) { printf("bad-op"); hxEndLine(); return true; }
+    if(c13Dead) { c13Dead_(); return true; }
+    char* q = c13Inner[c13NInner++];
+    q[0] = 0;
+    for(int i = 1; i < l.ntok; ++i) { if(i > 1) strcat(q, " "); strcat(q, l.tok[i]); }
+    c13Observe("ok");
+    return true;
+  }
   if(hxIs(l, "write", 2))
   {
     IpOutcome o;
